@@ -17,7 +17,7 @@ var simsched struct {
 	points  uint64
 	yields  uint64
 	preempt uint64
-	buf     [2048]guintptr
+	buf     [1 << 16]guintptr
 	trace   bool
 	sig     uint64
 	goid0   uint64
@@ -180,7 +180,12 @@ func simPick(pp *p) *g {
 			simsched.buf[n].set(sched.runq.pop())
 			n++
 		}
+		full := !sched.runq.empty()
 		unlock(&sched.lock)
+		if full {
+			// choosing among a subset that depends on the queue layout would not replay
+			throw("simPick: too many runnable goroutines")
+		}
 	}
 	if n == 0 {
 		return nil
